@@ -124,11 +124,14 @@ class _Walker:
             flat = True
             for x in o:
                 tx = type(x)
-                if not (tx is int or tx is float or tx is str or x is None or tx is bool):
+                if not (tx is int or tx is float or tx is str or x is None or tx is bool or
+                        (isinstance(x, enum.IntEnum))):
                     flat = False
                     break
             if flat:
-                out.append(('L' if t is list else 'T') + repr([float(x) if type(x) is int else x for x in o]))
+                # ints, equal floats and IntEnum members (priorities) are the same number everywhere in the library
+                out.append(('L' if t is list else 'T') +
+                           repr([float(x) if (type(x) is int or isinstance(x, enum.IntEnum)) else x for x in o]))
                 return
             out.append('[' if t is list else '(')
             walk = self.walk
